@@ -388,6 +388,10 @@ func (fd *Client) Query(ctx context.Context, input *dynamodb.QueryInput, opt ...
 		return nil, &smithy.GenericAPIError{Code: "ValidationException", Message: "The table does not have the specified index: " + indexName}
 	}
 
+	if err := table.ValidateStartKey(indexName, mapDynamoToTypesMapItem(input.ExclusiveStartKey)); err != nil {
+		return nil, &smithy.GenericAPIError{Code: "ValidationException", Message: err.Error()}
+	}
+
 	if input.ScanIndexForward == nil {
 		input.ScanIndexForward = aws.Bool(true)
 	}
@@ -427,6 +431,10 @@ func (fd *Client) Scan(ctx context.Context, input *dynamodb.ScanInput, opt ...fu
 	indexName := aws.ToString(input.IndexName)
 	if _, ok := table.Indexes[indexName]; indexName != "" && !ok {
 		return nil, &smithy.GenericAPIError{Code: "ValidationException", Message: "The table does not have the specified index: " + indexName}
+	}
+
+	if err := table.ValidateStartKey(indexName, mapDynamoToTypesMapItem(input.ExclusiveStartKey)); err != nil {
+		return nil, &smithy.GenericAPIError{Code: "ValidationException", Message: err.Error()}
 	}
 
 	items, lastKey := table.SearchData(core.QueryInput{
